@@ -294,6 +294,11 @@ struct SpyTransport : public Tcp::Transport {
     std::shared_ptr<Aio::Handler> clone() const override { return std::make_shared<SpyTransport>(handlerCopy()); }
     std::shared_ptr<Tcp::Handler> handlerCopy() const { return std::make_shared<LifeTcpHandler>(); }
 };
+// a 3 MiB file in the scratch directory of the run (made once per process)
+static const std::string& census_file() {
+    static std::string path = [] { std::string p = "c08-file-" + std::to_string(getpid()) + ".bin"; FILE* f = fopen(p.c_str(), "wb"); if (f) { std::string blk(1 << 16, 'f'); for (int k = 0; k < 48; k++) fwrite(blk.data(), 1, blk.size(), f); fclose(f); } return p; }();
+    return path;
+}
 struct LifeHttpHandler : public Http::Handler {
     HTTP_PROTOTYPE(LifeHttpHandler)
     static std::vector<std::unique_ptr<Http::ResponseWriter>>& parked() { static std::vector<std::unique_ptr<Http::ResponseWriter>> v; return v; }
@@ -323,16 +328,17 @@ struct LifeHttpHandler : public Http::Handler {
             return;
         }
         if (req.resource() == "/big") { response.send(Http::Code::Ok, std::string(4 << 20, 'z')); return; }
+        if (req.resource() == "/file") { Http::serveFile(response, census_file()); return; }   // a response that holds a descriptor of its own until it has been sent
         response.send(Http::Code::Ok, "ok");
     }
     void onDisconnection(const std::shared_ptr<Tcp::Peer>& peer) override { std::lock_guard<std::mutex> g(g_m); PeerLife& l = g_life[peer->getID()]; l.disc++; l.events += 'D'; l.obj = peer; }
 };
-static const char* BEHAVIOUR[] = {"connect-close", "partial-then-close", "exchange-then-close", "half-close-then-read", "reset", "reset-with-pending-response", "silence-until-idle-timeout", "armed-timeout-answered-before", "keepalive-3-requests-then-close", "exchange-then-silence-until-idle-timeout", "slow-request-keeps-worker-busy", "partial-then-immediate-close-while-worker-busy", "send-and-half-close-at-once-while-worker-busy", "request-a-streamed-response-then-reset", "long-poll-then-leave-before-the-response-time-out", "unread-response-then-silence-past-the-idle-time-out-then-close", "silence-past-the-idle-time-out-then-orderly-close", "slow-request-keeps-worker-busy-past-the-idle-time-out"};
+static const char* BEHAVIOUR[] = {"connect-close", "partial-then-close", "exchange-then-close", "half-close-then-read", "reset", "reset-with-pending-response", "silence-until-idle-timeout", "armed-timeout-answered-before", "keepalive-3-requests-then-close", "exchange-then-silence-until-idle-timeout", "slow-request-keeps-worker-busy", "partial-then-immediate-close-while-worker-busy", "send-and-half-close-at-once-while-worker-busy", "request-a-streamed-response-then-reset", "long-poll-then-leave-before-the-response-time-out", "unread-response-then-silence-past-the-idle-time-out-then-close", "silence-past-the-idle-time-out-then-orderly-close", "slow-request-keeps-worker-busy-past-the-idle-time-out", "reset-with-pending-file-response", "file-response-read-to-the-end"};
 static std::atomic<int> g_foreign_bytes{0};
 static std::atomic<int> g_own_408{0};
 static std::string g_foreign_detail;
 static void client_behaviour(int port, int b, bool http, Rng& r) {
-    lv::Conn c; if (!c.open_to(port, b == 5 || b == 15 ? 2048 : 0)) return;
+    lv::Conn c; if (!c.open_to(port, b == 5 || b == 15 || b == 18 ? 2048 : 0)) return;
     std::string buf;
     auto req = [&](const std::string& path) { return http ? "GET " + path + " HTTP/1.1\r\nHost: x\r\nConnection: keep-alive\r\n\r\n" : "hello " + path + "\n"; };
     // the reply must be this connection's own: state left behind by an earlier connection (e.g. its unsent response) must not surface here
@@ -356,6 +362,8 @@ static void client_behaviour(int port, int b, bool http, Rng& r) {
     case 5: c.send_all(http ? req("/big") : "BIG\n"); lv::msleep(r.range(5, 50)); c.rst_close(); return;
     case 6: { bool eof = false; double end = lv::now() + 4.0; std::string t; while (!eof && lv::now() < end) c.read_some(t, 100, 1 << 20, &eof); } break;
     case 7: { static const int MS[] = {300, 999, 1000, 1001, 2000, 60000, 1}; c.send_all(req("/armed?ms=" + std::to_string(r.pick(MS)))); readReply(); break; }
+    case 18: c.send_all(req("/file")); lv::msleep(r.range(5, 50)); c.rst_close(); return;
+    case 19: c.send_all(req("/file")); { lv::HttpMsg m = lv::read_response(c, buf, 0, (int)(8000 * lv::load_factor())); if (!timedOutByServer && (!m.complete || m.status != 200 || m.body.size() != (size_t)(48 << 16))) { if (g_foreign_bytes++ == 0) { std::lock_guard<std::mutex> g(g_m); g_foreign_detail = "file response: status " + std::to_string(m.status) + ", " + std::to_string(m.body.size()) + " body bytes"; } } } break;
     case 15: {   // a response it never reads, then silence past the idle time-out and a good while longer, then it leaves
         c.send_all(req("/big")); lv::msleep(3200); break; }
     case 16: lv::msleep(1250); break;   // silent past the idle time-out, then an orderly close - which may reach a busy worker together with the idle scan that has just found it
@@ -400,6 +408,7 @@ static void run_c08(long cases) {
             listener->runThreaded();
         }
         lv::msleep(30);
+        if (http) (void)census_file();
         int baselineFds = lv::fd_count();
         // descriptors left over from the previous round's endpoint (shut down with a connection still open) are not this round's
         long accepts0, closes0; { lv::Interpose& I = lv::ip(); std::lock_guard<std::mutex> g(I.m); I.owned.clear(); accepts0 = I.accepts; closes0 = I.closesOwned; }
@@ -411,6 +420,7 @@ static void run_c08(long cases) {
         if (stallRound) nclients = std::max(nclients, 3);
         for (int k = 0; k < nclients; k++) {
             int b = r.range(0, 16);
+            if (http && r.chance(1, 8)) b = r.chance(2, 3) ? 18 : 19;
             if (stallRound) { static const int QUIET[] = {0, 1, 4, 16, 16, 16, 12, 11}; b = k == 0 ? 17 : k <= 2 ? 16 : r.pick(QUIET); }
             if (!stallRound && k == 0 && r.chance(1, 2)) b = 10;
             if ((b == 15 || b == 16) && (!http || longTimeouts)) b = 5;
